@@ -72,7 +72,7 @@ class UnitReport:
         return [r for r in self.results if r.status == st]
 
 
-def run_program(label, prog, mode="uf", keep_smt=0, timeout_ms=None, filter_names=None):
+def run_program(label, prog, mode="uf", keep_smt=0, timeout_ms=None, filter_names=None, filter_obs=None):
     """Explore all paths of `prog` (a function of a Run), discharge every obligation.  Returns a UnitReport."""
     rep = UnitReport(label)
     t0 = time.time()
@@ -92,6 +92,7 @@ def run_program(label, prog, mode="uf", keep_smt=0, timeout_ms=None, filter_name
         return rep
     rep.paths = len(runs)
     kept = 0
+    seen = set()
     for run in runs:
         for c in run.ghost.get("covers", []):
             rep.covers.append(c)
@@ -99,6 +100,13 @@ def run_program(label, prog, mode="uf", keep_smt=0, timeout_ms=None, filter_name
         for ob in run.obls:
             if filter_names is not None and not filter_names(ob.name):
                 continue
+            if filter_obs is not None and not filter_obs(ob):
+                continue
+            # replayed prefixes regenerate the obligations of the shared prefix: one instance is enough
+            key = (ob.name, tuple(ob.path), len(ob.pc), ob.site)
+            if key in seen:
+                continue
+            seen.add(key)
             solve.discharge(ob, timeout_ms)
             r = Result(ob, label)
             if kept < keep_smt and ob.backend in ("z3", "cvc5"):
